@@ -1,4 +1,5 @@
 import Vore.Driver.Print
+import Vore.Driver.OpsParse
 import Vore.Driver.OpsC04
 import Vore.Driver.OpsC05
 import Vore.Driver.OpsC20
@@ -12,6 +13,6 @@ Each property that needs its own line-protocol operations defines, in
 -/
 namespace Vore.Driver
 
-def extraOps : List (String → List String → Option String) := [handleC04, handleC05, handleC20, handleLex]
+def extraOps : List (String → List String → Option String) := [handleParse, handleC04, handleC05, handleC20, handleLex]
 
 end Vore.Driver
